@@ -792,7 +792,9 @@ pub mod chan {
         }
     }
     impl<T> Sender<T> {
-        pub async fn send(&self, t: T) -> Result<(), SendError<T>> {
+        /// Synchronous: under Kani the async plumbing of pool.rs is compiled as ordinary functions
+        /// (see harness/pool_common.py), so `send(..)` is followed by no `.await`.
+        pub fn send(&self, t: T) -> Result<(), SendError<T>> {
             // SAFETY: see above
             unsafe { (*self.q).push(t) };
             Ok(())
